@@ -1200,6 +1200,17 @@ def _lower_fact(run, cy, cf, h, fvar, it: CInterp, sites) -> bool:
                 for nme in names_in(s.a[1]):
                     if nme in dict(cf.params) and is_ptr_type(dict(cf.params)[nme]):
                         root = nme
+                        roots.add(nme)
+            # ... or declared with that initialiser (possibly in several scopes:
+            # every one of them is a root)
+            if isinstance(s, X) and s.k == "cdecl":
+                for dn, dt, di in s.a[0]:
+                    if dn == b and di is not None:
+                        for nme in names_in(di):
+                            if nme in dict(cf.params) and \
+                                    is_ptr_type(dict(cf.params)[nme]):
+                                roots.add(nme)
+                                root = nme
         roots.add(root or b)
     # wrapper level: which arrays are those, and how is `sub` (range_min) computed
     w = h.wrapper
